@@ -26,7 +26,7 @@ import struct
 
 from hypothesis import strategies as st
 
-from vlib import tools
+from vlib import slow, tools
 from vlib import elf as E
 from vlib.core import Check, Discard, Inconclusive, Violation
 from vlib.elf import Elf
@@ -442,7 +442,7 @@ class C09(Check):
             texts[1].append("".join(c1))
         objs = []
         for obj in range(nobj):
-            tools.asm("".join(texts[obj]), f"o{obj}.o", cwd=d)
+            slow.asm("".join(texts[obj]), f"o{obj}.o", cwd=d)
             objs.append(f"o{obj}.o")
         return secs, sites, pieces_meta, got_targets, objs
 
@@ -603,7 +603,7 @@ class C09(Check):
         res = {}
         for who in ("ld", "lld", "wild"):
             out = f"out.{who}"
-            r = tools.link(who, self.link_args(case, who, objs, out, runtime), cwd=d)
+            r = slow.link(who, self.link_args(case, who, objs, out, runtime), cwd=d)
             if who == "wild":
                 if r.timed_out:
                     raise Inconclusive("wild timed out")
@@ -688,7 +688,9 @@ class C09(Check):
     def run_time(self, case, d):
         for who in ("ld", "wild"):
             for rep in range(2):
-                r = tools.run_exe(f"{d}/out.{who}", cwd=d, timeout=20)
+                r = tools.run_exe(f"{d}/out.{who}", cwd=d, timeout=120)
+                if r.timed_out:
+                    raise Inconclusive(f"{who} binary did not finish within 120 s (machine load?)")
                 if r.rc != 0:
                     msg = f"{who} binary: self-check of site #{r.rc - 1} (mod 250) failed / rc={r.rc} {r.err[-200:]}"
                     if who == "ld":
